@@ -210,6 +210,7 @@ def _assign(ctx):
     ctx.ob("C36.R5", site, "every element of the right-hand tuple is evaluated (comprehension / loop over the values)", bool(allv), construct="evaluate-every-element")
     _fresh_reads(ctx)
     _loop_targets(ctx)
+    _entry_allocation(ctx)
 
 
 def _fresh_reads(ctx):
@@ -279,3 +280,24 @@ def _loop_targets(ctx):
         body = [c for c in ast.walk(f) if isinstance(c, ast.Call) and norm(c.func) == "self.gen_statement"]
         ok = len(en) == 1 and len(lv) == 1 and body and en[0].lineno < min(b.lineno for b in body) and lv[0].lineno > min(b.lineno for b in body)
         ctx.ob("C36.R7", "%s:PythonToIrCompiler.%s" % (F, meth), "the loop body is generated between enter_loop and leave_loop", bool(ok), construct="bracket:" + meth)
+
+
+def _entry_allocation(ctx):
+    """R8: a Python local exists from its first assignment, wherever that is executed - often inside one branch of an
+    if or inside a loop body, with later assignments and reads elsewhere.  Its stack slot (Alloc + AddressOf) therefore
+    has to be created in the ENTRY block, which dominates every use; created where the first assignment happens to be
+    compiled, the address does not dominate the other uses (verifier assertion) and a slot in a loop body is allocated
+    once per iteration while the runtime frees it once."""
+    ctx.rule("C36.R8", "the stack slot of a local is allocated in the function's entry block (inserted there), not emitted at the point of the first assignment", floor=2)
+    fn = ctx.fn(F, "PythonToIrCompiler.get_variable")
+    site = F + ":PythonToIrCompiler.get_variable"
+    allocs = [n for n in ast.walk(fn) if isinstance(n, ast.Call) and norm(n.func) in ("ir.Alloc", "ir.AddressOf")]
+    ctx.need(len(allocs) == 2, "get_variable: creation of the slot not found")
+    emitted = [c for c in ast.walk(fn) if isinstance(c, ast.Call) and norm(c.func) in ("self.emit", "self.builder.emit") and any(x in allocs for x in ast.walk(c))]
+    ctx.ob("C36.R8", site, "the Alloc / AddressOf of a new variable are not emitted into the current block", not emitted, construct="not-at-current-position", node=emitted[0] if emitted else None, detail="; ".join(norm(e)[:60] for e in emitted))
+    from .. import sym
+    env = sym.single_assign_env(fn)
+    ins = [c for c in ast.walk(fn) if isinstance(c, ast.Call) and isinstance(c.func, ast.Attribute) and c.func.attr in ("insert_instruction", "add_instruction")]
+    recv = {" ".join(norm(sym.deep_inline(c.func.value, env)).split()) for c in ins}
+    ok = len(ins) == 2 and recv <= {"self.builder.function.entry"} and all(c.func.attr == "insert_instruction" for c in ins)
+    ctx.ob("C36.R8", site, "both are inserted at the front of function.entry (the entry block has no terminator-order problem: insertion is at the head)", ok, construct="inserted-in-entry", detail=str(sorted(recv)))
